@@ -69,6 +69,14 @@ class Universe(object):
 UNIVERSE = ["a", "b", "c", "a.x", "A.x", "ab", "bx", "k-v=1"]
 U = Universe(UNIVERSE)
 SUBSETS = U.subsets
+# tag names that CONTAIN an operator word as a '.', '-', '=' delimited part or in another letter case
+# (ticket keys such as @OR-1234, @NOT.ready, os=Not): operands, never operators
+KW_UNIVERSE = ["OR-1", "or-1", "NOT.x", "not.x", "k=And", "k=and", "a", "Or"]
+U_KW = Universe(KW_UNIVERSE)
+UNIVERSES = {"std": U, "kw": U_KW}
+KW_OPERANDS = [["tag", t] for t in KW_UNIVERSE] + [["tag", "AND"], ["tag", "Not"], ["tag", "x-and-y"], ["tag", "AND-OR"],
+               ["glob", "OR-*"], ["glob", "or-*"], ["glob", "NOT.?"], ["glob", "k=A*"], ["glob", "*=and"], ["glob", "O?"],
+               ["glob", "*-1"], ["glob", "[Nn]ot.x"]]
 
 ENUM_OPERANDS = [["tag", "a"], ["tag", "b"], ["tag", "c"], ["glob", "a.*"], ["glob", "?b"], ["glob", "[ab]x"]]
 ENUM_OPERANDS_SMALL = [["tag", "a"], ["glob", "a.*"], ["glob", "?b"]]
@@ -179,7 +187,8 @@ def valid_case(case):
     """Used by the shrinker: structural well-formedness of a (reduced) case."""
     try:
         if case["kind"] == "expr":
-            return (case["ast"] == ["true"] or valid_ast(case["ast"])) and case["form"] in ("text", "list")
+            return ((case["ast"] == ["true"] or valid_ast(case["ast"])) and case["form"] in ("text", "list")
+                    and case.get("u", "std") in UNIVERSES)
         if case["kind"] == "glob":
             return isinstance(case.get("pattern"), str) and bool(case["pattern"])
         if case["kind"] == "placeholder":
@@ -260,9 +269,12 @@ def check_expr(case):
     ast, variant, form = case["ast"], case["v"], case["form"]
     klass = escape_class(ast)
     arg = render(ast, variant, form)
-    want = expected_table(ast)
-    res.evals = len(SUBSETS)
+    uni = UNIVERSES[case.get("u", "std")]
+    want = uni.expected(ast)
+    res.evals = len(uni.subsets)
     common_labels(res, ast, variant, form)
+    if case.get("u") == "kw":
+        res.label("operator-like-tag-names")
     if klass:
         res.label(klass)
     if ast == ["true"]:
@@ -273,8 +285,8 @@ def check_expr(case):
     except TagExpressionError as e:
         res.fail(clause(klass, "rejected"), "well-formed expression %r is rejected: %s" % (arg, _one_line(e)), text=arg)
         return res
-    got = behave_table(expr)
-    diff = first_diff(want, got)
+    got = uni.observed(expr)
+    diff = uni.first_diff(want, got)
     if diff:
         what = "empty-selects-all" if ast == ["true"] else "truth-table"
         res.fail(clause(klass, what), "%r parsed as %r: for tags %s the formula is %s, check() says %s"
@@ -287,7 +299,7 @@ def check_expr(case):
                      "%s() of the expression parsed from %r is %r which does not parse: %s"
                      % (name, arg, printed, _one_line(e)), text=arg, printed=printed)
             break       # to_string() is str() plus cosmetics: report the first broken one only
-        diff = first_diff(got, behave_table(again))
+        diff = uni.first_diff(got, uni.observed(again))
         if diff:
             res.fail(clause(klass, name + "-reparse"),
                      "%s() of the expression parsed from %r is %r which parses as %r: for tags %s the original "
@@ -469,6 +481,18 @@ def random_expr_st(operands=None):
                      ast_st(operands or RANDOM_OPERANDS), VARIANT_ST, st.sampled_from(["text", "text", "list"]))
 
 
+def kw_expr_st():
+    return st.builds(lambda a, v, f: {"kind": "expr", "ast": a, "v": v, "form": f, "u": "kw"},
+                     ast_st(KW_OPERANDS, max_leaves=5), VARIANT_ST, st.sampled_from(["text", "text", "list"]))
+
+
+def kw_enum():
+    for ast in enumerate_trees(KW_OPERANDS, 1, 3):
+        for case in expr_cases([ast], text_variants=[0, 1], list_variants=[0]):
+            case["u"] = "kw"
+            yield case
+
+
 VIAS = ["kw:config_tags", "kw:default_tags", "kw:default_tags-text", "file:tags", "file:default_tags"]
 
 
@@ -558,6 +582,8 @@ def explore(rec):
     rec.enum("placeholder/small-configs-x-templates", placeholder_enum(ENUM_OPERANDS, 3 if quick else 4))
     rec.hyp("placeholder/random", placeholder_st(), 6000 if quick else 120000)
     rec.enum("escaped-operands", escaped_cases())
+    rec.enum("operator-like-tag-names/trees<=3-nodes", kw_enum())
+    rec.hyp("operator-like-tag-names/random", kw_expr_st(), 4000 if quick else 100000)
     rec.enum("wildcard-patterns<=%d x all tags<=3" % (4 if quick else 5), glob_cases(4 if quick else 5))
 
 
@@ -565,7 +591,8 @@ def required_labels(tier):
     return ["empty", "form:text", "form:list", "wildcard", "wildcard:case-pair-distinguished", "literal:dot-dash-eq",
             "rendering:at", "rendering:extra-parens", "rendering:extra-blanks", "operators>=2", "negation",
             "depth:3", "depth:5", "placeholder:substituted", "placeholder:no-command-line-tags",
-            "escaped-wildcard", "escaped-literal", "glob-edge", "glob-edge:overlap-candidate"] + ["placeholder:" + v for v in VIAS]
+            "escaped-wildcard", "escaped-literal", "glob-edge", "glob-edge:overlap-candidate",
+            "operator-like-tag-names"] + ["placeholder:" + v for v in VIAS]
 
 
 KNOWN_PREDICATES = {}
